@@ -110,6 +110,8 @@ type originAnalysis struct {
 	sanitizers map[string]bool // full function names whose result is clean
 	cache      map[types.Object]map[string]bool
 	inProgress map[types.Object]bool
+	// returnSummaries: also include constants/fields that flow into the result of called module functions
+	returnSummaries bool
 }
 
 func newOriginAnalysis(r *Run, cg *CallGraph, sanitizers ...string) *originAnalysis {
@@ -179,6 +181,25 @@ func (oa *originAnalysis) originsOfExpr(p *packages.Package, fd *ast.FuncDecl, e
 		}
 		for _, a := range x.Args {
 			add(oa.originsOfExpr(p, fd, a, depth+1))
+		}
+		// return summary of module functions: constants and fields that flow into the first result
+		if fn != nil && oa.returnSummaries {
+			if cd := oa.cg.Decl[fn.Origin()]; cd != nil && cd.Body != nil && depth < 8 {
+				cp := oa.cg.PkgOf[fn.Origin()]
+				ast.Inspect(cd.Body, func(n ast.Node) bool {
+					if _, isLit := n.(*ast.FuncLit); isLit {
+						return false
+					}
+					if rs, ok := n.(*ast.ReturnStmt); ok && len(rs.Results) >= 1 {
+						for k, v := range oa.originsOfExpr(cp, cd, rs.Results[0], depth+4) {
+							if strings.HasPrefix(k, "const:") || strings.HasPrefix(k, "field:") {
+								out[k] = v
+							}
+						}
+					}
+					return true
+				})
+			}
 		}
 		if sel, ok := ast.Unparen(x.Fun).(*ast.SelectorExpr); ok {
 			if s := info.Selections[sel]; s != nil {
